@@ -39,6 +39,9 @@ Rules applied to extracted text (recorded in evidence as coverage.extraction.dro
     behind the loop: `let mut F = false; loop { .. F = true; break; .. } if F { S; }` (same program: nothing runs between
     the `break` and the end of the loop).  Needed where S assigns a place whose pattern-borrowed fields are live loop
     variables: Verus forgets the place at the loop head and its borrow checker rejects any invariant naming it.
+ 16 (opt-in, `opaque_async_blocks`) every `async [move] { .. }` BLOCK expression in the body is replaced by a call of the
+    prelude's `opaque_async_block()` (Verus has no generator types): the future built there is a value the function only
+    stores; what it does when polled is NOT verified and is listed as dropped text
  13 (opt-in, `emit_as X`) the function is emitted under the identifier X (same text verified against another part of its contract)
 """
 import hashlib
@@ -211,6 +214,7 @@ def build(template_path, repo, out_path, drop_tags=()):
             unproject = False
             unguard = False
             emit_as = None
+            opaque_async = False
             sink = None
             closurespec = {}
             cur = contract
@@ -238,6 +242,8 @@ def build(template_path, repo, out_path, drop_tags=()):
                         oname = d[5:].strip()
                     elif d.startswith("emit_as "):
                         emit_as = d[8:].strip()
+                    elif d == "opaque_async_blocks":
+                        opaque_async = True
                     elif d.startswith("sink_exit "):
                         mm = re.match(r'sink_exit (\d+) flag=(\w+)$', d)
                         if not mm:
@@ -552,6 +558,27 @@ def build(template_path, repo, out_path, drop_tags=()):
                     edits.append((ltoks[k].e, ltoks[k].e, f" {ls['it']}:"))
                     unit.drops["for_iterators_named"] += 1
                 edits.append((ltoks[lbo].s, ltoks[lbo].s, "\n" + "\n".join(ls["lines"]) + "\n"))
+            if opaque_async:
+                # rule 16: see the module docstring
+                n16 = 0
+                k = bol + 1
+                while k < bcl:
+                    if ltoks[k].k == "id" and ltoks[k].t == "async":
+                        j = k + 1
+                        if ltoks[j].k == "id" and ltoks[j].t == "move":
+                            j += 1
+                        if ltoks[j].t == "{":
+                            e = rslex.match_close(ltoks, j)
+                            s0, s1 = ltoks[k].s, ltoks[e].e
+                            edits = [x for x in edits if not (s0 <= x[0] and x[1] <= s1)]
+                            edits.append((s0, s1, "opaque_async_block()"))
+                            n16 += 1
+                            k = e + 1
+                            continue
+                    k += 1
+                if n16 == 0:
+                    raise ExtractError(f"rule 16: `{path[-1]}` contains no async block")
+                unit.drops["async_blocks_replaced_by_opaque_future"] = unit.drops.get("async_blocks_replaced_by_opaque_future", 0) + n16
             if sink:
                 # rule 15: see the module docstring
                 n, flag = sink
